@@ -24,7 +24,8 @@ from .. import algs, fpx
 from ..runner import Infra
 from ..translate import ir
 
-THEOREMS = ["generated_wf", "square_is_mul", "absolute_is_abs", "limits_square_absolute", "square_correctly_rounded", "absolute_exact"]
+THEOREMS = ["generated_wf", "square_is_mul", "absolute_is_abs", "limits_square_absolute", "square_correctly_rounded", "absolute_exact",
+            "hypot_constants", "sqrt2_bounds", "ties_hypot", "hypot_accuracy", "hypot_generated", "hypot_hypotheses_satisfiable"]
 SEARCHED = ["4 ULP (float32) / 5 ULP (float64) bound", "fewer than 1 in 1e5 inputs above 3 ULP", "NaN exactly where undefined", "exact limits at infinities and zero"]
 TRUSTED = [
     "Lean 4 kernel; axioms propext, Classical.choice, Quot.sound only",
@@ -34,9 +35,14 @@ TRUSTED = [
 LEVEL_TEXT = ("Partial proof. Theorems on the regenerated programs: well-formedness; real `square` is the single IEEE multiplication x*x and real `absolute` the sign-bit clear, "
               "so their results are correctly rounded / exact for every input (0 ULP): square_correctly_rounded (value = RNE(x^2) for every finite x whose square does not overflow, "
               "from the proved correct rounding of the softfloat multiplication) and absolute_exact (value = |x|); their limits at 0 and infinity are exact (kernel-evaluated). "
+              "ACCURACY OF hypot (hypot_accuracy, hypot_generated, Props/C02Hypot.lean): the regenerated hypot_f32/hypot_f64 are node for node the specification program (ties_hypot, constants hypot_constants, "
+              "sqrt_two within u of sqrt 2: sqrt2_bounds), and over Q — any round-to-nearest, any square root with relative error <= u = 2^-p (SqrtOK, specified on squares; such an oracle exists: "
+              "hypot_hypotheses_satisfiable), every precision p >= 8 with emin + 2p + 2 <= 0 — for ALL rational x, y with max(|x|,|y|) >= 2^(emin+p) (twice the smallest normal), absent overflow, all three "
+              "branches (|x| = |y|; the tiny-ratio correction mx + mx r/2, gradual underflow of the ratio and its square included; the main formula): (1-u)^7 (x^2+y^2) <= H^2 <= (1+u)^7 (x^2+y^2), "
+              "i.e. relative error < 3.51 u: within 4 ULP. "
               "The 4/5-ULP bounds, the 1e-5 rate, the NaN domain and the limits of asin/acos/asinh/acosh/hypot are decided by search: float32 exhaustively in the thorough "
               "tier (all non-NaN patterns), strided + boundary-targeted in quick; float64 and hypot sampled against an mpmath Ziv reference.")
-LEVEL_NOTE = "ULP bounds of the libm-based functions: search only (exhaustive for float32 in thorough)."
+LEVEL_NOTE = "ULP bounds of the libm-based functions: search only (exhaustive for float32 in thorough); hypot: theorem over Q with an abstract correctly-rounded sqrt (normal range, absent overflow) + search."
 TECHNIQUE = "translator-regenerated Lean programs + kernel-checked exactness of square/absolute + exhaustive float32 sweep (thorough) / mpmath search"
 
 UNARY = algs.REAL
@@ -268,7 +274,7 @@ def run(ctx):
                 "float64: log-uniform samples + the same boundary sets; hypot: pairs (independent, nearby exponents, thresholds) + lattice; "
                 "non-trivial = finite input with a determined reference; distinct by input bits")
     progs, errors = generate(ctx)
-    broken = ctx.lean_stage(["FAVerif.Props.C02"], THEOREMS)
+    broken = ctx.lean_stage(["FAVerif.Props.C02", "FAVerif.Props.C02Hypot"], THEOREMS)
     for k, e in errors.items():
         broken.append(ctx.broken(f"translate:{k}", e))
     n64 = ctx.scale(4000, 200000)
